@@ -251,6 +251,13 @@ pub(crate) mod kit {
             Poll::Pending => {
                 assert!(len == 0 && s.keep[id as usize],                     "poll: Pending only if nothing is buffered and the stream is to keep running");
                 assert!(sm::waker_is(ch.manager(), id as usize, &waker),     "poll: before answering Pending the task's waker is registered");
+                // the same stream object polled again by ANOTHER task (a stream may change hands between polls): the per-call contract holds for every poll,
+                // not only for the first one of a stream object -- the waker registered now is the one of the task parking now
+                let waker2 = sm::counting_waker(id as usize);
+                let mut cx2 = Context::from_waker(&waker2);
+                let r2 = Pin::new(&mut *stream).poll_next(&mut cx2);
+                assert!(matches!(r2, Poll::Pending),                          "poll: still nothing buffered, still told to keep running: Pending again");
+                assert!(sm::waker_is(ch.manager(), id as usize, &waker2),    "poll: EVERY poll that answers Pending registers the waker of the task that polled");
             }
         }
         if len == 0 && !s.keep[id as usize] { assert!(ended, "poll: a stream told to end answers end-of-stream as soon as it finds nothing buffered, needing no further event"); }
